@@ -553,3 +553,97 @@ def check_frame(I, pfx, allowed):
                     detail="" if not bad else "writes outside modifies: %r" % (bad,), path=list(I.dec),
                     model={} if bad else None)
     I.obls.append(ob)
+
+
+# ------------------------------------------------------------------------------------------------------------------
+class LoopBodyContract:
+    """Contract on the body of one `for` loop of a function, verified for an arbitrary iteration in isolation (no
+    induction needed when the property is per-iteration).  What the code before the loop establishes is stated in
+    `requires` and justified there (trusted models of sorted/set/comprehension filters, A3)."""
+    relpath = None
+    qual = None           # function containing the loop
+    ordinal = 0           # which `for` (source order)
+    props = ()
+    shards = None
+
+    @property
+    def name(self):
+        return "body:%s#%d" % (self.qual, self.ordinal)
+
+    def pre_env(self, I):
+        """local variables at the start of an arbitrary iteration (loop target included)"""
+        raise NotImplementedError
+
+    def requires(self, c):
+        return []
+
+    def ensures(self, c):
+        return []
+
+    def perturbed(self, c):
+        return []
+
+
+def verify_body(con, registry, opts=None, initial=None):
+    import ast as _ast
+    t0 = time.time()
+    res = Result(con)
+    cls, fname = con.qual.split(".")
+    r = resolve_method(cls, fname)
+    if r is None:
+        raise front.BindingError("%s not found" % con.qual)
+    relpath, qual, fn = r
+    fors = sorted([n for n in _ast.walk(fn) if isinstance(n, _ast.For)], key=lambda n: (n.lineno, n.col_offset))
+    if con.ordinal >= len(fors):
+        raise front.BindingError("%s has no loop #%d" % (con.qual, con.ordinal))
+    loop = fors[con.ordinal]
+    res.ast_hash = front.ast_hash(fn)
+    from .engine import _Continue, _Break
+
+    def run(I):
+        env = con.pre_env(I)
+        c = Ctx(I, env)
+        for cl in con.requires(c):
+            assume_clause(I, cl)
+        if not I.feasible():
+            raise PathEnd("requires-unsat")
+        c.old = I.snapshot()
+        I.write_logs = [set()]
+        I.first_new_oid = I.next_oid
+        I.frames.append(Frame(relpath, qual, env))
+        outcome = "iteration"
+        try:
+            try:
+                I.block(loop.body)
+            except _Continue:
+                outcome = "continue"
+            except _Break:
+                outcome = "break"
+        except PyRaise as ex:
+            outcome = "raise:" + ex.typ
+            c.exc = ex
+        finally:
+            I.frames.pop()
+        c.new = I.snapshot()
+        c.result = outcome
+        pfx = "%s::loop%d::body::" % (con.qual, con.ordinal)
+        for cl in con.ensures(c):
+            prove_clause(I, pfx, cl)
+        for cl in con.perturbed(c):
+            control_clause(I, pfx + "control::", cl)
+        return outcome
+
+    results = explore(run, registry, opts, initial=initial)
+    for I, out in results:
+        res.paths += 1
+        if isinstance(out, tuple):
+            res.outcomes[out[1]] = res.outcomes.get(out[1], 0) + 1
+        else:
+            res.feasible_paths += 1
+            res.outcomes[out] = res.outcomes.get(out, 0) + 1
+        res.obls.extend(I.obls)
+        for l in I.log:
+            if l.startswith("inlined "):
+                res.inlined.add(l[8:])
+    res.wall = time.time() - t0
+    return res
